@@ -230,7 +230,7 @@ fn case(tier: Tier, rng: &mut Rng, rep: &mut Report) {
     p.mixed_units = false;
     p.surcharges = rng.chance(0.3);
     let world = gen_world(rng, &p);
-    let mut qc = QueryCase { world, cut: vec![], query: json!({}), alg: Alg::Dijkstra, od: Od::Vertex(0, None), reverse: false };
+    let mut qc = QueryCase { world, cut: vec![], query: json!({}), alg: Alg::Dijkstra, od: Od::Vertex(0, None), reverse: false, via_files: rng.chance(0.2) };
     let si = match qc.build() {
         Ok(s) => s,
         Err(e) => {
